@@ -395,3 +395,12 @@ Fixpoint compile (own : N) (s : sys) (ops : list sop) : list op :=
               | None => compile own (fst (sys_step true own s o)) r
               end
   end.
+
+(* ====================================================================================================
+   The RPC layer that answers closest-contacts queries (lbry/dht/protocol/protocol.py KademliaRPC):
+   findNode = find_close_peers(key, sender_node_id = requester)[:2K]; the contacts of findValue = findNode[:K].
+   ==================================================================================================== *)
+Definition rpc_find_node (own : N) (t : table) (key : N) (requester : N) : list peer :=
+  firstn (K * 2) (find_close own t key 0 (Some requester)).
+Definition rpc_find_value_contacts (own : N) (t : table) (key : N) (requester : N) : list peer :=
+  firstn K (rpc_find_node own t key requester).
